@@ -1301,22 +1301,15 @@ def run_r4(repo: Repo, res: Result) -> None:
                     bad.append(f"the search result is post-processed (`{norm(cand, 80)}`)" + (f" using `{', '.join(others)}`" if others else ""))
                     continue
                 for a in [*call.args, *[k.value for k in call.keywords]]:
-                    if isinstance(a, ast.Name) and a.id in bnames:
-                        continue
-                    if isinstance(a, ast.Attribute) and _is_graph(fn, a):
-                        continue  # the graph itself (read-only for the searches)
-                    whole = False
-                    if True:
-                        da = co.normalise(co._describe_copy(a))
-                        whole = not da.unknown and not da.removals and len(da.contribs) == 1 and not da.contribs[0].conds and len(da.contribs[0].binders) == 1 and da.contribs[0].binders[0].root and dotted(da.contribs[0].binders[0].source) in params and isinstance(da.contribs[0].elt, ast.Name) and da.contribs[0].elt.id in da.contribs[0].binders[0].names
-                    if not whole:
-                        bad.append(f"the search also receives `{norm(a, 60)}`")
+                    why = _own_key_and_whole_sets_only(fn, co, a, bnames, params, key_params)
+                    if why:
+                        bad.append(f"the search also receives `{show(a, 60)}`{why}")
         n += 1
         res.add(
             "C11.R4",
             base_key + " [independent searches]",
             not bad,
-            "each search receives only the graph, its own key and the whole opposite set" if not bad else bad[0] + ": state is shared between the searches of one batch, so a batched rule is no longer the conjunction of the single rules",
+            "each search receives only the graph, its own key and the whole opposite set" if not bad else bad[0] + (", so" if bad[0].endswith("batch") else ":") + " a batched rule is no longer the conjunction of the single rules",
             where(view, key_node),
             kind="flow",
         )
@@ -1338,6 +1331,42 @@ def run_r4(repo: Repo, res: Result) -> None:
         n += 1
         res.add("C11.R4", base_key + " [result per key]", not bad, "the result is stored under the key of the iteration, unconditionally" if not bad else bad[0] + ": the result of a search is not stored under its own key for every key", where(view, key_node), kind="structural")
     res.floor("C11.R4", 12, n)
+
+
+def _own_key_and_whole_sets_only(fn: Fn, co: Collections, a: ast.AST, bnames: set[str], params: list[str], key_params: list[str], depth: int = 0) -> str:
+    """'' if the argument is computed from the key of this search, the graph and whole given collections of the *other* side only
+    (then the search for a key is the same in a batch and in the single rule); else the reason."""
+    if isinstance(a, ast.Starred):
+        a = a.value
+    if isinstance(a, ast.Name) and a.id in bnames:
+        return ""
+    if isinstance(a, ast.Constant):
+        return ""
+    if isinstance(a, ast.Attribute) and _is_graph(fn, a):
+        return ""  # the graph itself (read-only for the searches)
+    da = co.normalise(co._describe_copy(a))
+    if not da.unknown and not da.removals and len(da.contribs) == 1 and not da.contribs[0].conds and len(da.contribs[0].binders) == 1 and da.contribs[0].binders[0].root and isinstance(da.contribs[0].elt, ast.Name) and da.contribs[0].elt.id in da.contribs[0].binders[0].names:
+        src = dotted(da.contribs[0].binders[0].source)
+        if src in params:
+            if src in key_params and len(key_params) < len(params):
+                return f" - the whole collection `{src}` whose elements are the keys: the result for a key depends on which other keys are in the batch"
+            return ""
+    if depth < 3:
+        if isinstance(a, (ast.Set, ast.Tuple, ast.List)):
+            for x in a.elts:
+                w = _own_key_and_whole_sets_only(fn, co, x, bnames, params, key_params, depth + 1)
+                if w:
+                    return w
+            return ""
+        if isinstance(a, ast.BinOp) and isinstance(a.op, (ast.Sub, ast.BitOr, ast.BitAnd, ast.Add)):
+            return _own_key_and_whole_sets_only(fn, co, a.left, bnames, params, key_params, depth + 1) or _own_key_and_whole_sets_only(fn, co, a.right, bnames, params, key_params, depth + 1)
+        if isinstance(a, ast.Call) and isinstance(a.func, ast.Attribute) and a.func.attr in ("difference", "union", "intersection", "copy") and not a.keywords:
+            for x in [a.func.value, *a.args]:
+                w = _own_key_and_whole_sets_only(fn, co, x, bnames, params, key_params, depth + 1)
+                if w:
+                    return w
+            return ""
+    return ": state is shared between the searches of one batch"
 
 
 def _is_graph(fn: Fn, a: ast.AST) -> bool:
